@@ -13,7 +13,8 @@ import json
 import verif
 import codeccommon as cc
 
-TYPES = ["iq", "message", "presence", "iq.help", "message.help", "presence.help", "stanzaerror", "streamerror", "encode.pair"]
+TYPES = ["iq", "message", "presence", "iq.help", "message.help", "presence.help", "stanzaerror", "streamerror", "encode.pair",
+         "reuse.core"]
 
 MC_CFG = '''CONSTANTS
   Tier = "%(tier)s"
@@ -37,7 +38,7 @@ PROPS = ["C13_AutomatonExact", "C13_AutomatonAgreesWithFunction", "C13_ReplyInDo
 def run(ctx):
     quick = ctx.tier == "quick"
     mc = ctx.model_check("MCCodec", MC_CFG % dict(tier="quick", maxlen=5 if quick else 6), PROPS,
-                         workers=4 if quick else 8, timeout=1200)
+                         workers=4 if quick else 8, timeout=1200, heap="3g" if quick else "6g")
     if ctx.replay:
         case = json.load(open(ctx.replay))["case"]
         sym, _, counts = cc.emit(ctx, [], tier="thorough")
@@ -55,7 +56,7 @@ def run(ctx):
     if not ctx.replay and r.checked_obs != sum(counts.values()):
         raise verif.Undecided("observations %d != vectors emitted %d" % (r.checked_obs, sum(counts.values())))
     nviol = cc.report(ctx, sym, obs, tls, rej, rtl, "C13")
-    nself = cc.selftest_binding(ctx, obs, tls, tier=tier) if not ctx.replay else 0
+    nself = (cc.selftest_binding(ctx, obs, tls, tier=tier) + cc.selftest_kept(ctx, obs, tier=tier, rejected=rej)) if not ctx.replay else 0
     if ctx.replay:
         return          # a replay re-runs one stored case; the evidence file of the last full run is kept
     ctx.write_evidence("model_checking", {
@@ -72,9 +73,11 @@ def run(ctx):
                 "stream errors every sequence of 0-3 texts over the language tags of ErrLangs in every order (plus repeated tags / empty texts up to 2); "
                 "application-specific conditions: none / an ordinary foreign element on every error, and for every defined condition every foreign element whose local name collides with a name the codec treats specially "
                 "(text, error, iq, message, presence, the condition names - quick: the error's own and one other -, in the application's namespace and in the other error namespace; thorough also the stream and stanza namespaces), with a nested <text/> of the error's own namespace; "
+                "decoded values are VALUES (aliasing): for IQ / message / presence / stanza error / stream error every ordered pair of documents a, b (errors with 0, 1, 2, 3 texts that all differ; stanzas that differ in every attribute) is decoded one after the other into ONE variable, from bytes and from tokens; a copy of the variable taken by assignment after the first decode must still be what a fresh decode of a gives after b was decoded and after both were encoded (leaves the type reaches through a map or a pointer are shared by the language and exempt: stanza.Error.Text); "
                 "plain values through a session (internal/marshal): every pair (outer call, inner call made from inside the outer call's first transport write on a second session) over the 8 Encode entry points x stanza kinds x types that do not wait x short / longer-than-buffer bodies; "
                 "distinct_nontrivial = distinct abstract token lists (names, attribute names, nesting) produced by all encoders" % tier,
-        "laws": ["InDomain", "Complete", "NoFailure", "WellFormed", "PathsAgree", "RoundTrip (incl. helper expectations st/result/errreply/payload/err/iqerr)"],
+        "laws": ["InDomain", "Complete", "NoFailure", "WellFormed", "PathsAgree", "RoundTrip (incl. helper expectations st/result/errreply/payload/err/iqerr)",
+                 "Reuse / Kept (decoding into a used receiver: no panic, the new value is what the document gives or an accumulation; a copy of the earlier value is not changed)"],
         "design_check": "MCCodec: all token sequences of length <= %d over 7 tokens; reply helpers and error normal forms over the whole domain" % (5 if quick else 6),
         "samples": summ["samples"][:2],
     }, assumptions=[
